@@ -88,7 +88,9 @@ def run(tier):
     tools = build.build("asan") + "/bin"
     os.environ["ASAN_OPTIONS"] = "detect_leaks=0:abort_on_error=1"
     rng = random.Random(SEED)
-    base = {"SkipDupCheck": False, "NoSanityInCreate": False, "NoSanityInFill": False, "NoExcl": False, "Emit": False, "SortCaseFold": False}
+    base = {"SkipDupCheck": False, "NoSanityInCreate": False, "NoSanityInFill": False, "NoExcl": False, "Emit": False, "SortCaseFold": False,
+            "NoSanityInAttr": False, "AttrFollowsLinks": False, "ChmodOnLinks": False}
+    ATTR_DEVS = ("NoSanityInAttr", "AttrFollowsLinks", "ChmodOnLinks")
     cfg = work + "/u.cfg"
     write_cfg(cfg, spec="Spec", constants=base, invariants=["Confined"], deadlock=False)
     r = run_tlc("Unpack", cfg, workers=16, timeout=1800, heap="12g")
@@ -100,7 +102,7 @@ def run(tier):
     devres = {}
     witnesses = []
     emitted = []
-    for dev in ["SkipDupCheck", "NoSanityInCreate", "NoSanityInFill", "SortCaseFold"]:
+    for dev in ["SkipDupCheck", "NoSanityInCreate", "NoSanityInFill", "SortCaseFold", "AttrFollowsLinks", "ChmodOnLinks"]:
         c = dict(base)
         c[dev] = True
         write_cfg(cfg, spec="Spec", constants=c, invariants=["Confined"], deadlock=False)
@@ -138,9 +140,11 @@ def run(tier):
     nsel = 500 if tier == "quick" else 6000
     forests += [list(p) for p in danger[:nsel // 2]] + [list(p) for p in pairs[:nsel // 2]]
     forests = [list(w[1]) for w in witnesses] + [f for _, f in emitted] + forests
+    attr_only = {json.dumps(f, sort_keys=True) for d_, f in emitted if d_ in ATTR_DEVS} | {json.dumps(list(w[1]), sort_keys=True) for w in witnesses if w[0] in ATTR_DEVS}
     ev.set("emitted_forests_replayed", len(emitted))
     flagsets = [[], ["--chmod", "--chown", "--set-times", "--set-xattr"], ["--chmod"], ["--chown", "--set-times"]]
-    jobs = [(i, f, flagsets[i % len(flagsets)]) for i, f in enumerate(forests)]
+    # forests whose only protection lies in the attribute phase always run with all four switches
+    jobs = [(i, f, flagsets[1] if json.dumps(f, sort_keys=True) in attr_only else flagsets[i % len(flagsets)]) for i, f in enumerate(forests)]
 
     def do(job):
         i, f, flags = job
